@@ -56,6 +56,12 @@ CHECKS["C03"] = (TV, "translation validation: symbolic execution (SSA->SMT, z3) 
     "clauses, with reader/writer closures created before yields and called after. Every declaration is initialised from a distinct symbolic term, so a reference bound to the "
     "wrong variable changes the yielded term and the solver returns a distinguishing input. Two-world log equality as in C01. Program dimension sampled.", "§6 C03")
 
+CHECKS["C04"] = (TV, "translation validation: symbolic execution (SSA->SMT, z3) of range loops inside generators against go/ssa's lowering of the native range statement",
+    "Directed-combinatorial corpus: {string with fully symbolic bytes, slice (3 / empty / nil), array by value, map, nil map, buffered closed channel} x {k,v := / k := / _,v := / "
+    "no variables / k,v = outer variables} x {yielding, non-yielding, continue, break, mutation of the collection before/after the yield, nested range, range inside a "
+    "non-generator closure}. Reference = the source's native range as lowered by go/ssa under coroutine semantics; implementation = generated loop over seq.New*Iter; the solver "
+    "decides log equality for all element values / bytes. Integer range is outside (needs go >= 1.22 sources); sizes <= 3.", "§6 C04")
+
 NA = {
     "C11": "compiler acceptance/buildability is decided by the compiler pipeline itself (go/packages, go/types, reflection-based AST rewriting, printer, file system); it cannot be encoded by an SSA->SMT translator and has no symbolic dimension once a program is fixed — enumeration of concrete compiler runs would be a different technique (DESIGN §7)",
     "C15": "byte-identical output across runs/configurations is a statement about repeated process runs, map iteration in the compiler and leftovers on disk; no symbolic inputs and the code is not encodable (DESIGN §7)",
